@@ -134,7 +134,7 @@ theorem nodeOk_set {P idOf s c M q m} (hI : Inv P idOf s) (H : SetHyp s c M)
       AOrd (setSMemo s c (some M)) c mc R)
     (hm : s.memos q = some m) : NodeOk P idOf (setSMemo s c (some M)) q m := by
   have ok := hI.node q m hm
-  refine ⟨?_, ok.origin, ?_, ok.rank, ?_, ok.hmemo, ok.hd, ?_, ok.hsrc, ok.outedge, ok.never, ?_⟩
+  refine ⟨?_, ok.origin, ?_, ok.rank, ?_, ok.hmemo, ok.hd, ?_, ok.hsrc, ok.outedge, ok.never, ?_, ok.shape⟩
   rotate_right
   · rcases ok.m4 with a | ⟨o, ho, hout, a⟩
     · exact Or.inl a
